@@ -550,6 +550,34 @@ impl Scenario for Sched {
                     let i = if rng.chance(1, 2) { *pairs.last().unwrap() } else { pairs[rng.usize_below(pairs.len())] };
                     let (xl, xp) = st.order[i];
                     let (yl, yp) = st.order[i + 1];
+                    // variant: messages of the SAME kind from two validators at one position. Data format 0
+                    // (16-byte slots, so the 64-byte header is a whole number of slots): X's offset-to-next is
+                    // shrunk into its payload, the data words of X behind that point and the data words of Y get
+                    // unknown IDs with different other bytes - word i of X and word i-4-kx of Y share a position
+                    // and the same message head ([E991] ...), only the quoted bytes differ.
+                    let fmt0 = st.links[xl].packets[xp].rdh.data_format == 0 && st.links[yl].packets[yp].rdh.data_format == 0;
+                    let nx = st.links[xl].packets[xp].words.len();
+                    let ny = st.links[yl].packets[yp].words.len();
+                    if fmt0 && nx >= 8 && ny >= 4 && rng.chance(1, 2) && st.links[xl].packets[xp].rdh.memory_size == st.links[xl].packets[xp].rdh.offset_next {
+                        let kx = rng.range(2, (nx - 5) as u64) as usize;
+                        let x = &mut st.links[xl].packets[xp];
+                        x.rdh.offset_next = (64 + 16 * kx) as u16;
+                        for w in x.words.iter_mut().skip(kx) {
+                            if w.kind == itsgen::words::Kind::Data {
+                                rng.fill(&mut w.word[..9]);
+                                w.word[9] = *rng.pick(&[0x00u8, 0x9A, 0xF3, 0x10]);
+                            }
+                        }
+                        let y = &mut st.links[yl].packets[yp];
+                        for w in y.words.iter_mut() {
+                            if w.kind == itsgen::words::Kind::Data {
+                                rng.fill(&mut w.word[..9]);
+                                w.word[9] = *rng.pick(&[0x00u8, 0x9A, 0xF3, 0x10]);
+                            }
+                        }
+                        label = format!("{label}overlap-same-kind,");
+                        continue;
+                    }
                     let x = &mut st.links[xl].packets[xp];
                     if x.rdh.memory_size != x.rdh.offset_next {
                         continue;
@@ -672,8 +700,7 @@ impl Scenario for EarlyStop {
          the cases, queue capacities capped to 1..8 in half of them (full queues), starvation policies included. \
          Oracle: no panic, no deadlock, every managed thread finished within the step budget (50 x reference + 5000), \
          exit status in the allowed set, partial -o file = whole packets and a prefix of the expected filtered data; \
-         a stdout failure that the producer runs into three times or more is noticed (fatal reported or stop flag \
-         raised); after the stop event at most one batch of 100 packets + 64 KiB of read-ahead are still \
+         a stdout failure that a view or the writer runs into is noticed (fatal reported or stop flag raised); after the stop event at most one batch of 100 packets + 64 KiB of read-ahead are still \
          read from the input. A quarter of the check / view command lines carry an (ignored) -o. \
          Non-trivial: >= 3 managed threads. Distinct: (input hash, reference trace hash)."
             .into()
@@ -1823,6 +1850,31 @@ impl Scenario for ExitContract {
             specs.push(mk(&a, &mut rng));
             kinds.push(format!("codes+cap:{l}:{cap2}"));
         }
+        if checks_toml.is_some() {
+            // a failed user-configured count is found whatever the mode: through a view and through filtered
+            // writing the status must be N as well
+            let mut other = |mode_parts: Vec<String>, rng: &mut Rng| {
+                let mut p = mode_parts;
+                if let Some(n) = exit_code {
+                    p.extend(s(&["-E", &n.to_string()]));
+                }
+                p.extend(s(&["-c", "@CHECKS@"]));
+                let mut sp = specgen::spec(im.clone(), &p, input.clone());
+                sp.custom_checks_toml = checks_toml.clone();
+                if rng.chance(4, 5) {
+                    swarm_schedule(&mut sp, rng, 300 + st.total_packets() as u64 * 12);
+                }
+                specs.push(sp);
+                kinds.push("other-mode-custom".to_string());
+            };
+            let mut v = s(VIEW_MODES[rng.usize_below(3)]);
+            if rng.chance(1, 2) {
+                v.push("-d".into());
+            }
+            other(v, &mut rng);
+            let wr = Filter::Link(st.links[rng.usize_below(st.links.len())].link_id).args();
+            other(wr, &mut rng);
+        }
         if class == "fatal-midstream" {
             // the exit-status rule is not a matter of the check modes: the same input through a view and
             // through filtered writing (stdout / file) must also end with N when the fatal is reported
@@ -1869,6 +1921,7 @@ fn make_rejected(rng: &mut Rng) -> Trial {
         ("-D without -S", vec!["check", "sanity", "-D", "json"]),
         ("two filters", vec!["check", "sanity", "-f", "1", "-F", "2"]),
         ("input stats wrong extension", vec!["check", "sanity", "-i", "@INSTATS@"]),
+        ("input stats extension in another case", vec!["check", "sanity", "-i", "@INSTATS@"]),
         ("input stats missing", vec!["check", "sanity", "-i", "@INSTATS@.nope.json"]),
         ("unknown subcommand", vec!["check", "everything"]),
         ("bad link value", vec!["check", "sanity", "-f", "300"]),
@@ -1888,6 +1941,11 @@ fn make_rejected(rng: &mut Rng) -> Trial {
     if name == "input stats wrong extension" {
         spec.input_stats = Some("{}".to_string());
         spec.input_stats_ext = "txt".to_string();
+    }
+    if name == "input stats extension in another case" {
+        // (only `json` / `toml` are accepted, as written)
+        spec.input_stats = Some("{}".to_string());
+        spec.input_stats_ext = rng.pick(&["JSON", "Json", "TOML", "Toml", "jsoN"]).to_string();
     }
     Trial::Rejected { spec, label: format!("rejected: {name}") }
 }
